@@ -1035,9 +1035,9 @@ class Structure(UniqueMixin, metaclass=StructMeta):
                 ):
                     value = field_by_name[key]._from_trusted_value(value, self)
                 self.__dict__[key] = value
-                self.__dict__["_instantiated"] = True
-                self.__dict__["_none_fields"] = set()
-                super().__init__()
+            self.__dict__["_instantiated"] = True
+            self.__dict__["_none_fields"] = set()
+            super().__init__()
             return
         try:
             bound = getattr(self, "__signature__").bind(*args, **kwargs)
